@@ -200,8 +200,9 @@ def gen_purity_world(rw, rv, knobs):
 
     ds_masked = None
     if "dataset" in want or "inversion" in want:
-        d0 = R.add("a", {"kind": "array2d", "mask": ref(mf), "input": "native", "values": hx(rv, h * w, "data")})
-        nz = R.add("a", {"kind": "array2d", "mask": ref(mf), "input": "native", "values": hx(rv, h * w, "noise")})
+        native_ds = rw.random() < 0.3
+        d0 = R.add("a", {"kind": "array2d", "mask": ref(mf), "input": "native", "values": hx(rv, h * w, "data"), "store_native": native_ds})
+        nz = R.add("a", {"kind": "array2d", "mask": ref(mf), "input": "native", "values": hx(rv, h * w, "noise"), "store_native": native_ds and rw.random() < 0.8})
         kmax = 2 * margin + 1
         ks = [rw.choice([k for k in (1, 3, 5) if k <= kmax]), rw.choice([k for k in (1, 3, 5) if k <= kmax])]
         if rw.random() < 0.6:
